@@ -156,6 +156,27 @@ def capacity_info(ctx):
                       "%s: capacity().max = %s must be >= 2*data codewords = %s (digit pairs are the densest encodation), "
                       "otherwise the early `too much data` rejection refuses encodable input" % (v, c and c.get("max") if isinstance(c, dict) else c, 2 * d if isinstance(d, int) else d),
                       site=t["cap_sites"].get(v)))
+    # the gate compares the length of what will actually be encoded: max_capacity() is consulted only by the encoder's
+    # codewords(), against self.data.len() (the input after macro stripping) - a caller that tests the raw input would refuse
+    # macro messages whose compacted form fits
+    f = ctx.facts()
+    fn = SL + "::max_capacity"
+    callers = sorted({T.canon(name) for name, b in f.thir.items() for c in T.calls(b["body"]) if T.canon(T.callee_of(c)) == fn})
+    cw = [n for n in f.thir if T.canon(n).endswith("GenericDataEncoder::codewords")]
+    ok = len(cw) == 1 and callers == [T.canon(cw[0])]
+    det = None
+    if ok:
+        sts = T.stmts(f.thir[cw[0]]["body"], {"__noinline__": True})
+        lv = T.let_values(sts)
+        cmps = [x for st in T.stmt_walk(sts) for ex in T.stmt_exprs(st) for x in T.sx_walk(ex)
+                if isinstance(x, tuple) and x and x[0] == "bin" and x[1] in ("Gt", "Lt", "Ge", "Le") and any(isinstance(y, tuple) and y and y[0] == "call" and y[1] == fn for y in T.sx_walk(T.map_sx(x, lambda n: T.look_through(n, lv) if n[0] == "var" else n)))]
+        det = [T.sx_show(x, 160) for x in cmps]
+
+        def is_data_len(y):
+            y = T.look_through(y, lv)
+            return y[0] == "call" and y[1].endswith("::len") and len(y[2]) == 1 and any(isinstance(z, tuple) and z and z[0] == "field" and z[2] == "data" and z[1][:2] == ("var", "self") for z in T.sx_walk(y[2][0]))
+        ok = len(cmps) == 1 and (is_data_len(cmps[0][2]) or is_data_len(cmps[0][3]))
+    obs.append(Ob(r, "gate-on-stripped-data", ok, "max_capacity() is consulted only by GenericDataEncoder::codewords(), compared with self.data.len() (the input after macro stripping)", detail=det or callers))
     return obs
 
 
